@@ -141,7 +141,7 @@ def project_links(db) -> Dict[str, Any]:
     L['edb'] = [e.database is db for e in db.enums]
     L['enote'] = [[getattr(i.note, 'parent', None) is i for i in e.items] for e in db.enums]
     L['gdb'] = [g.database is db for g in db.table_groups]
-    L['gnote'] = [(not g.note) or getattr(g.note, 'parent', None) is g for g in db.table_groups]
+    L['gnote'] = [g.note is None or getattr(g.note, 'parent', None) is g for g in db.table_groups]      # (an empty note is a note)
     L['rdb'] = [r.database is db for r in db.refs]
     L['ndb'] = [n.database is db for n in db.sticky_notes]
     L['pdb'] = db.project is None or db.project.database is db
@@ -173,11 +173,30 @@ def classify(ex: BaseException) -> str:
     return type(ex).__name__
 
 
-def parse_and_project(text: str, allow: bool = False, links: bool = True):
-    """-> (result record, links record, db or None)"""
+def _parse_via(text: str, allow: bool, via: str):
     from pydbml import PyDBML
+    kw = {'allow_properties': True} if allow else {}
+    if via == 'str':
+        return PyDBML(text, **kw)
+    import os
+    import tempfile
+    from pathlib import Path
+    fd, fn = tempfile.mkstemp(suffix='.dbml', prefix='pv_via_')
     try:
-        db = PyDBML(text, allow_properties=allow) if allow else PyDBML(text)
+        with os.fdopen(fd, 'w', encoding='utf8', newline='') as f:
+            f.write(text)
+        if via == 'path':
+            return PyDBML(Path(fn), **kw)
+        with open(fn, encoding='utf8', newline='') as f:
+            return PyDBML(f, **kw)
+    finally:
+        os.unlink(fn)
+
+
+def parse_and_project(text: str, allow: bool = False, links: bool = True, via: str = 'str'):
+    """-> (result record, links record, db or None); via = how the text is handed to the constructor (str, path, file)"""
+    try:
+        db = _parse_via(text, allow, via)
     except Exception as ex:
         return {'kind': 'error', 'class': classify(ex)}, EMPTY_LINKS, None
     return project_db(db), (project_links(db) if links else EMPTY_LINKS), db
